@@ -130,7 +130,7 @@ theorem CRel.setUsed {c c' : Caches} (h : CRel U P c c') (pkg : PkgId) {v v' : L
   ⟨h.tocPath, h.parents, h.pkginfos, h.providers, h.schemas, h.children,
    fun pk hU => by
      show OptRel MemEq (alGet (alSet c.used pkg v) pk) (alGet (alSet c'.used pkg v') pk)
-     rw [alGet_alSet, alGet_alSet]
+     rw [c9_alGet_alSet, c9_alGet_alSet]
      split
      · exact .some hv
      · exact h.used pk hU,
@@ -142,7 +142,7 @@ theorem CRel.newUsed {c c' : Caches} (h : CRel U P c c') (pkg : PkgId) :
   ⟨h.tocPath, h.parents, h.pkginfos, h.providers, h.schemas, h.children,
    fun pk hU => by
      show OptRel MemEq (alGet (alSet c.used pkg []) pk) (alGet (alSet c'.used pkg []) pk)
-     rw [alGet_alSet, alGet_alSet]
+     rw [c9_alGet_alSet, c9_alGet_alSet]
      split
      · exact .some (MemEq.refl _)
      · rename_i hne
